@@ -1,10 +1,12 @@
-from rules import flp_guards, flp_shape
+from rules import flp_guards, flp_shape, c10
 
 INFO = {
     "explanation": "SYM shape identities (proof/verifier/prove-rand lengths, gadget counts, ceil(input_len/chunk_length) == joint_rand_len, range-check buffer arity, eval_output_len) for every circuit and every parameter, as polynomial normal forms; and static GUARD rules over the MIR of the FLP core: every length refusal of prove/query/decide, the "
                    "root-of-unity refusal for every gadget, decide's two checks, the call checks of every circuit and "
                    "gadget are present with the stated operands and relation, refuse on every path and dominate every "
-                   "accepting return. Decides the length-exactness/refusal clauses of C05; completeness, soundness "
+                   "accepting return. The polynomial routines the proof system evaluates with (NTT, Lagrange-basis evaluation, extension, doubling) are held to their "
+                   "transcription rules (R-C10.S, shared with C10: recurrences, butterflies, loops that visit every node). "
+                   "Decides the length-exactness/refusal clauses of C05 and that necessary structural part of completeness; completeness, soundness "
                    "and share-linearity (algebra over field values) are NOT decided.",
     "trusted_base": ["rustc type checker and MIR construction (nightly)", "expression reconstruction over MIR (sa/expr.py)"],
     "assumptions": ["a refusal is an Err (or Ok(false) in decide) return; panics are the subject of C16"],
@@ -20,3 +22,6 @@ def run(ctx):
     ctx.floor("R-C05.G.decide", 6)
     ctx.floor("R-C05.G.callcheck", 15)
     ctx.floor("R-C05.G.gadget", 12)
+    # completeness rests on the polynomial routines the prover and verifier evaluate with (shared with C10)
+    c10.run_shape(ctx)
+    c10.run_exhaustive_loops(ctx)
